@@ -54,3 +54,70 @@ def make_literal_eval(tokens):
             return -ev(node.operand)
         return real(node)
     return ev
+
+
+class Interp1dModel(object):
+    """contract of scipy.interpolate.interp1d(kind='linear', bounds_error=False, fill_value=(below, above)):
+    sorts x (assume_sorted=False), piecewise linear inside, fill values outside"""
+    def __init__(self, x, y, axis=-1, copy=True, bounds_error=None, fill_value=np.nan, assume_sorted=False, **kw):
+        from symx.shim import interp_model
+        x = list(x)
+        y = np.asarray(y, dtype=object)
+        if axis not in (-1, 0):
+            raise NotImplementedError
+        self.axis = axis
+        if not assume_sorted:
+            order = sorted(range(len(x)), key=_SortKey(x))
+            x = [x[i] for i in order]
+            y = y[order] if (axis == 0 or y.ndim == 1) else y[..., order]
+        self.x, self.y = x, y
+        if isinstance(fill_value, tuple):
+            self.below, self.above = fill_value
+        else:
+            self.below = self.above = fill_value
+
+    def __call__(self, xn):
+        from symx.shim import interp_model
+        if self.y.ndim == 1:
+            return interp_model(xn, self.x, list(self.y), left=self.below, right=self.above)
+        # axis 0, 2-D y: column by column
+        xn = list(xn)
+        out = np.empty((len(xn),) + self.y.shape[1:], dtype=object)
+        for j in np.ndindex(self.y.shape[1:]):
+            col = [self.y[(i,) + j] for i in range(self.y.shape[0])]
+            lb = self.below[j] if hasattr(self.below, '__len__') else self.below
+            ab = self.above[j] if hasattr(self.above, '__len__') else self.above
+            res = interp_model(xn, self.x, col, left=lb, right=ab)
+            for i in range(len(xn)):
+                out[(i,) + j] = res[i]
+        return out
+
+
+class _SortKey(object):
+    def __init__(self, x):
+        self.x = x
+
+    def __call__(self, i):
+        return _K(self.x[i])
+
+
+class _K(object):
+    __slots__ = ('v',)
+
+    def __init__(self, v):
+        self.v = v
+
+    def __lt__(self, o):
+        return bool(self.v < o.v)
+
+
+def expn_model(n, x):
+    """scipy.special.expn(2, x) -> UF E2 (positive, decreasing, <=1 on x>=0)"""
+    if n != 2:
+        raise NotImplementedError
+    if isinstance(x, np.ndarray):
+        out = np.empty(x.shape, dtype=object)
+        for i in np.ndindex(x.shape):
+            out[i] = uf_apply('E2', x[i]) if isinstance(x[i], Sym) else __import__('scipy.special').special.expn(2, float(x[i]))
+        return out
+    return uf_apply('E2', x)
